@@ -63,7 +63,7 @@ SCHEDULES = [
 BASE = {"photon": "f64", "charge": "array", "pixel": "f64", "signal": "f64", "image": "u16", "scene": "no",
         "data": "none", "debug": "off", "alias": "no"}
 AXES = {
-    "photon": ["none", "f64", "f32", "f16", "wl2", "wl3"],
+    "photon": ["none", "f64", "f32", "f16", "wl2", "wl3", "wl2xy"],   # wl2xy: the cube carries its own y / x coordinates
     "charge": ["none", "array", "clusters"],
     "pixel": ["none", "f64", "f32", "f16"],
     "signal": ["none", "f64", "f32", "f16"],
@@ -81,7 +81,7 @@ GROUP_OF = {**IDLE, "m_charge2": "charge_generation", "m_charge_scale": "charge_
             "m_scene": "scene_generation", "m_photon": "photon_collection", "noop": "phasing",
             "m_charge": "charge_generation", "m_pixel": "charge_collection", "m_pixel_x2": "charge_transfer",
             "m_signal": "charge_measurement", "m_signal_same": "signal_transfer", "m_image": "readout_electronics",
-            "m_signal_cast": "signal_transfer", "m_image_cast": "readout_electronics",
+            "m_signal_cast": "signal_transfer", "m_image_cast": "readout_electronics", "m_pixel_zero": "charge_transfer",
             "m_data": "data_processing", "last": "data_processing"}
 
 
@@ -149,7 +149,8 @@ def _photon_spec(v, const):
         opt["wl"] = int(w[2:])
         opt["dtype"] = FLOATS[v]
     elif v.startswith("wl"):
-        opt["wl"] = int(v[2:])
+        opt["xy"] = v.endswith("xy")
+        opt["wl"] = int(v[2:].replace("xy", ""))
         opt["dtype"] = "float64"
     else:
         opt["dtype"] = FLOATS[v]
@@ -210,6 +211,8 @@ def build_pipeline(cfg, salt, track=False):
         idle("charge_collection", "m_pixel_idle")
         if debug:
             add("charge_transfer", "m_pixel_x2", {"pixel": {"dtype": FLOATS[cfg["pixel"]], "const": const, "mul": 2}})
+            # a model that dumps the collected charge: non-zero pixel content replaced by zeros is a change too
+            add("charge_transfer", "m_pixel_zero", {"pixel": {"dtype": FLOATS[cfg["pixel"]], "const": const, "mul": 0}})
     if cfg["signal"] != "none":
         add("charge_measurement", "m_signal", {"signal": {"dtype": FLOATS[cfg["signal"]], "const": const,
                                                          "reuse": reuse}})
